@@ -155,6 +155,13 @@ func (g *hgen) args(c *ast.CallExpr) string {
 }
 
 func (g *hgen) call(c *ast.CallExpr) {
+	if fl, ok := c.Fun.(*ast.FuncLit); ok && len(c.Args) == 0 {
+		// func() { ... }(): a block with its own defers
+		g.emit("block{")
+		g.block(fl.Body.List)
+		g.emit("}block")
+		return
+	}
 	fun := g.src(c.Fun)
 	// closures passed to safely*
 	if sel, ok := c.Fun.(*ast.SelectorExpr); ok && strings.HasPrefix(sel.Sel.Name, "safely") {
@@ -551,6 +558,22 @@ func runHandlerGen(r *Repo) (string, error) {
 		hs = append(hs, k)
 	}
 	sort.Strings(hs)
+	// every Lock / RLock site of the request path and how it is released
+	locks, err := lockSites(r, files)
+	if err != nil {
+		return "", err
+	}
+	b.WriteString("(* (function, lock operation, release): release = deferred | explicit | explicit-with-calls:<callees between lock and unlock> *)\n")
+	b.WriteString("Definition lock_sites : list (string * string * string) := [\n")
+	for i, l := range locks {
+		fmt.Fprintf(&b, "  (%s, %s, %s)", CoqString(l[0]), CoqString(l[1]), CoqString(l[2]))
+		if i+1 < len(locks) {
+			b.WriteString(";")
+		}
+		b.WriteString("\n")
+	}
+	b.WriteString("].\n\n")
+
 	b.WriteString("Definition tmsg_string_fields : list (string * list string) := [\n")
 	for i, h := range hs {
 		fs, err := strFields(h, "", 0)
@@ -569,4 +592,182 @@ func runHandlerGen(r *Repo) (string, error) {
 	}
 	b.WriteString("].\n")
 	return b.String(), nil
+}
+
+
+// ---------------------------------------------------------------------------
+// lock sites
+
+var lockPureCalls = map[string]bool{"len": true, "delete": true, "make": true, "append": true, "panic": true, "fmt.Sprintf": true}
+
+func isLockCall(e ast.Expr) (recv, op string, ok bool) {
+	c, ok := e.(*ast.CallExpr)
+	if !ok || len(c.Args) != 0 {
+		return "", "", false
+	}
+	sel, ok := c.Fun.(*ast.SelectorExpr)
+	if !ok {
+		return "", "", false
+	}
+	switch sel.Sel.Name {
+	case "Lock", "RLock", "Unlock", "RUnlock":
+		return "", sel.Sel.Name, true
+	}
+	return "", "", false
+}
+
+func lockSites(r *Repo, files map[string]*ast.File) ([][3]string, error) {
+	var out [][3]string
+	seen := map[token.Pos]bool{}
+	src := func(n ast.Node) string {
+		var b bytes.Buffer
+		printer.Fprint(&b, r.Fset, n)
+		return strings.Join(strings.Fields(b.String()), " ")
+	}
+	// callees of every call expression inside n (function literals included), except lock operations themselves
+	callees := func(n ast.Node) []string {
+		var cs []string
+		ast.Inspect(n, func(x ast.Node) bool {
+			c, ok := x.(*ast.CallExpr)
+			if !ok {
+				return true
+			}
+			if _, _, isl := isLockCall(c); isl {
+				return true
+			}
+			f := src(c.Fun)
+			if _, isLit := c.Fun.(*ast.FuncLit); isLit {
+				f = "func-literal"
+			}
+			if !lockPureCalls[f] {
+				cs = append(cs, f)
+			}
+			return true
+		})
+		return cs
+	}
+	var scan func(fn string, list []ast.Stmt) error
+	scan = func(fn string, list []ast.Stmt) error {
+		for i, s := range list {
+			// nested blocks
+			switch x := s.(type) {
+			case *ast.IfStmt:
+				if err := scan(fn, x.Body.List); err != nil {
+					return err
+				}
+				if eb, ok := x.Else.(*ast.BlockStmt); ok {
+					if err := scan(fn, eb.List); err != nil {
+						return err
+					}
+				}
+			case *ast.ForStmt:
+				if err := scan(fn, x.Body.List); err != nil {
+					return err
+				}
+			case *ast.RangeStmt:
+				if err := scan(fn, x.Body.List); err != nil {
+					return err
+				}
+			case *ast.BlockStmt:
+				if err := scan(fn, x.List); err != nil {
+					return err
+				}
+			case *ast.SwitchStmt:
+				for _, cc := range x.Body.List {
+					if err := scan(fn, cc.(*ast.CaseClause).Body); err != nil {
+						return err
+					}
+				}
+			}
+			// function literals (safely* closures, defers, go statements)
+			ast.Inspect(s, func(x ast.Node) bool {
+				if fl, ok := x.(*ast.FuncLit); ok {
+					scan(fn, fl.Body.List)
+					return false
+				}
+				return true
+			})
+			es, ok := s.(*ast.ExprStmt)
+			if !ok {
+				continue
+			}
+			_, op, isl := isLockCall(es.X)
+			if !isl || (op != "Lock" && op != "RLock") || seen[es.Pos()] {
+				continue
+			}
+			seen[es.Pos()] = true
+			mu := src(es.X.(*ast.CallExpr).Fun.(*ast.SelectorExpr).X)
+			unl := "Unlock"
+			if op == "RLock" {
+				unl = "RUnlock"
+			}
+			want := mu + "." + unl
+			release := ""
+			var between []string
+			for _, t := range list[i+1:] {
+				if d, ok := t.(*ast.DeferStmt); ok && src(d.Call.Fun) == want {
+					if len(between) == 0 {
+						release = "deferred"
+					} else {
+						release = "deferred-after-calls:" + strings.Join(between, ",")
+					}
+					break
+				}
+				if e2, ok := t.(*ast.ExprStmt); ok {
+					if c2, ok := e2.X.(*ast.CallExpr); ok && src(c2.Fun) == want {
+						if len(between) == 0 {
+							release = "explicit"
+						} else {
+							release = "explicit-with-calls:" + strings.Join(between, ",")
+						}
+						break
+					}
+				}
+				// an early unlock inside a branch that leaves the function does not end the region
+				between = append(between, calleesSkipping(callees, t, want)...)
+			}
+			if release == "" {
+				return r.Refuse(s.Pos(), "no release of %s.%s found in the same block of %s", mu, op, fn)
+			}
+			out = append(out, [3]string{fn, mu + "." + op, release})
+		}
+		return nil
+	}
+	for _, fname := range []string{"handlers.go", "path_tree.go", "server.go"} {
+		f, ok := files[fname]
+		if !ok {
+			return nil, fmt.Errorf("p9/%s not found", fname)
+		}
+		for _, d := range f.Decls {
+			fd, ok := d.(*ast.FuncDecl)
+			if !ok || fd.Body == nil {
+				continue
+			}
+			name := fd.Name.Name
+			if fd.Recv != nil && len(fd.Recv.List) == 1 {
+				name = recvTypeName(fd.Recv.List[0].Type) + "." + name
+			}
+			if err := scan(name, fd.Body.List); err != nil {
+				return nil, err
+			}
+		}
+	}
+	sort.Slice(out, func(i, j int) bool {
+		if out[i][0] != out[j][0] {
+			return out[i][0] < out[j][0]
+		}
+		return false
+	})
+	return out, nil
+}
+
+// calleesSkipping lists the callees of t, ignoring calls of the unlock itself (early-exit branches).
+func calleesSkipping(callees func(ast.Node) []string, t ast.Stmt, unlock string) []string {
+	var out []string
+	for _, c := range callees(t) {
+		if c != unlock {
+			out = append(out, c)
+		}
+	}
+	return out
 }
